@@ -120,7 +120,11 @@ class Wavefunction:
 
     def __setitem__(self, idx, val):
         old_vector = self._amplitude_vector.copy()
-        self._amplitude_vector[idx] = val
+        try:
+            self._amplitude_vector[idx] = val
+        except Exception:
+            self._amplitude_vector = old_vector
+            raise
 
         try:
             self._check_normalization(self._amplitude_vector)
